@@ -617,25 +617,32 @@ static void sc_tcp(void) { sc_echo(0); }
 static void sc_pipe(void) { sc_echo(1); }
 
 /* ================================================================== scenario: IPC handle passing */
-static struct { uv_pipe_t *a, *b; uv_tcp_t* lst; int port; } ip;
-static void ip_write_cb(uv_write_t* r, int status) { got[Q_write]++; free(r); if (CB("write2_cb", status)) return; hclose(ip.a); hclose(ip.lst); }
+#define IPC_N 19     /* descriptors sent before the receiver accepts any: 1 in accepted_fd, 8 fill the first queue block
+                        (uv__malloc), #10 and #18 grow it (uv__realloc in uv__stream_queue_fd) */
+static struct { uv_pipe_t *a, *b; uv_tcp_t* lst; int port; int nwritten; size_t nbytes; int naccepted, sameport; } ip;
+static void ip_write_cb(uv_write_t* r, int status) { got[Q_write]++; free(r); if (CB("write2_cb", status)) return; if (++ip.nwritten == IPC_N) { hclose(ip.a); hclose(ip.lst); } }
 static void ip_read(uv_stream_t* s, ssize_t n, const uv_buf_t* b) {
   (void) b;
   if (n == 0) return;
   if (n < 0) { if (n == UV_EOF) { OUT("T ipc-eof"); hclose(s); return; } CB("ipc_read_cb", (int) n); return; }
-  OUT("T ipc-data n=%zd pending=%d", n, uv_pipe_pending_count((uv_pipe_t*) s));
+  ip.nbytes += (size_t) n;
+  if (ip.nbytes < IPC_N) return;                 /* keep everything queued inside libuv until all have arrived */
+  OUT("T ipc-data total=%zu pending=%d", ip.nbytes, uv_pipe_pending_count((uv_pipe_t*) s));
   while (uv_pipe_pending_count((uv_pipe_t*) s) > 0) {
     uv_handle_type t = uv_pipe_pending_type((uv_pipe_t*) s);
     uv_tcp_t* got_h = NEW(uv_tcp_t); struct sockaddr_in sa; int len = sizeof sa;
+    if (t != UV_TCP) VIOL("ipc-pending-type", "pending type %s", uv_handle_type_name(t));
     if (A("uv_tcp_init", uv_tcp_init(loop, got_h))) { free(got_h); bail(); return; }
     if (A("uv_accept(ipc)", uv_accept(s, (uv_stream_t*) got_h))) { hclose(got_h); bail(); return; }
     if (A("uv_tcp_getsockname", uv_tcp_getsockname(got_h, (struct sockaddr*) &sa, &len)) == 0)
-      OUT("T ipc-recv type=%s same-port=%d", uv_handle_type_name(t), ntohs(sa.sin_port) == ip.port);
+      ip.sameport += ntohs(sa.sin_port) == ip.port;
+    ip.naccepted++;
     hclose(got_h);
   }
+  OUT("T ipc-recv accepted=%d same-port=%d", ip.naccepted, ip.sameport);
 }
 static void sc_ipc(void) {
-  uv_os_sock_t fds[2]; struct sockaddr_in sa; int len = sizeof sa; uv_write_t* wr; uv_buf_t b = uv_buf_init("H", 1);
+  uv_os_sock_t fds[2]; struct sockaddr_in sa; int len = sizeof sa, i; uv_write_t* wr; uv_buf_t b = uv_buf_init("H", 1);
   if (A("uv_socketpair", uv_socketpair(SOCK_STREAM, 0, fds, UV_NONBLOCK_PIPE, UV_NONBLOCK_PIPE))) return;
   ip.a = NEW(uv_pipe_t); ip.b = NEW(uv_pipe_t);
   uv_pipe_init(loop, ip.a, 1); uv_pipe_init(loop, ip.b, 1);
@@ -648,23 +655,26 @@ static void sc_ipc(void) {
   if (A("uv_tcp_getsockname", uv_tcp_getsockname(ip.lst, (struct sockaddr*) &sa, &len))) goto out;
   ip.port = ntohs(sa.sin_port);
   if (A("uv_read_start", uv_read_start((uv_stream_t*) ip.b, alloc_cb, ip_read))) goto out;
-  wr = NEW(uv_write_t);
-  if (A("uv_write2", uv_write2(wr, (uv_stream_t*) ip.a, &b, 1, (uv_stream_t*) ip.lst, ip_write_cb))) { free(wr); goto out; }
-  owed[Q_write]++;
+  for (i = 0; i < IPC_N; i++) {
+    wr = NEW(uv_write_t);
+    if (A("uv_write2", uv_write2(wr, (uv_stream_t*) ip.a, &b, 1, (uv_stream_t*) ip.lst, ip_write_cb))) { free(wr); goto out; }
+    owed[Q_write]++;
+  }
   uv_run(loop, UV_RUN_DEFAULT);
   return;
 out:
   bail();
+  uv_run(loop, UV_RUN_DEFAULT);
 }
 
 /* ================================================================== scenario: udp */
-#define UDP_N 6
-static struct { uv_udp_t *rx, *tx; struct sockaddr_in addr; int nrecv; unsigned sum; char seq[64]; } ud;
+#define UDP_N 46    /* 1 try_send + 45 queued: three sendmmsg batches of at most 20 (UV__MMSG_MAXWIDTH) */
+static struct { uv_udp_t *rx, *tx; struct sockaddr_in addr; int nrecv; unsigned sum; char seq[UDP_N + 4]; } ud;
 static void ud_send_cb(uv_udp_send_t* r, int status) { got[Q_udp_send]++; free(r); CB("udp_send_cb", status); }
 static int ud_send(const char* a, const char* b2) {
   uv_udp_send_t* r = NEW(uv_udp_send_t); uv_buf_t bufs[6]; int rc, n = 2;
   bufs[0] = uv_buf_init((char*) a, strlen(a)); bufs[1] = uv_buf_init((char*) b2, strlen(b2));
-  if (a[1] == '5') for (; n < 6; n++) bufs[n] = uv_buf_init("+", 1);      /* more than 4 buffers: heap-allocated copy */
+  if (a[1] == 'E' || a[1] == 'Z') for (; n < 6; n++) bufs[n] = uv_buf_init("+", 1);      /* more than 4 buffers: heap-allocated copy */
   rc = A("uv_udp_send", uv_udp_send(r, ud.tx, bufs, n, (struct sockaddr*) &ud.addr, ud_send_cb));
   if (rc) free(r); else owed[Q_udp_send]++;
   return rc;
@@ -674,15 +684,16 @@ static void ud_recv(uv_udp_t* h, ssize_t n, const uv_buf_t* b, const struct sock
   if (n < 0) { CB("udp_recv_cb", (int) n); return; }
   if (sa == NULL) return;                        /* nothing to read / recvmmsg buffer release */
   if (flags & UV_UDP_PARTIAL) VIOL("udp-partial", "%s", "datagram truncated");
-  if (n >= 2 && ud.nrecv < 60) ud.seq[ud.nrecv] = b->base[1];
+  if (n >= 2 && ud.nrecv < UDP_N) ud.seq[ud.nrecv] = b->base[1];
   ud.sum = csum(ud.sum, b->base, n);
   if (++ud.nrecv == UDP_N) { OUT("T udp-recv n=%d order=%s sum=%u", ud.nrecv, ud.seq, ud.sum); hclose(ud.rx); hclose(ud.tx); }
 }
 static char udslab[65536 * 4];
 static void ud_alloc(uv_handle_t* h, size_t sug, uv_buf_t* b) { (void) h; (void) sug; *b = uv_buf_init(udslab, sizeof udslab); }
 static void sc_udp(void) {
-  static const char* const msg[UDP_N] = { "d0", "d1", "d2", "d3", "d4", "d5" };
+  static char msg[UDP_N][3];
   int len = sizeof ud.addr, i, r; uv_buf_t tb[2];
+  for (i = 0; i < UDP_N; i++) { msg[i][0] = 'd'; msg[i][1] = (char) ('A' + i); msg[i][2] = 0; }
   ud.rx = NEW(uv_udp_t);
   if (A("uv_udp_init_ex", uv_udp_init_ex(loop, ud.rx, AF_INET | UV_UDP_RECVMMSG))) { free(ud.rx); return; }
   uv_ip4_addr("127.0.0.1", 0, &ud.addr);
@@ -691,7 +702,7 @@ static void sc_udp(void) {
   if (A("uv_udp_recv_start", uv_udp_recv_start(ud.rx, ud_alloc, ud_recv))) goto out;
   ud.tx = NEW(uv_udp_t);
   if (A("uv_udp_init", uv_udp_init(loop, ud.tx))) { free(ud.tx); ud.tx = NULL; goto out; }
-  tb[0] = uv_buf_init((char*) msg[0], 2); tb[1] = uv_buf_init("-try", 4);
+  tb[0] = uv_buf_init(msg[0], 2); tb[1] = uv_buf_init("-try", 4);
   r = ATRY("uv_udp_try_send", uv_udp_try_send(ud.tx, tb, 2, (struct sockaddr*) &ud.addr));
   if (r == UV_EAGAIN) { if (ud_send(msg[0], "-try")) goto out; }
   else if (r < 0) goto out;
@@ -946,7 +957,8 @@ out:
 }
 
 /* ================================================================== scenario: uv_poll on a socketpair */
-static struct { uv_poll_t* h; int fds[2]; int phase; } po;
+#define PO_EXTRA 24
+static struct { uv_poll_t* h; int fds[2]; int phase; int extra[PO_EXTRA][2]; } po;
 static void po_cb(uv_poll_t* h, int status, int events) {
   if (CB("poll_cb", status)) return;
   if (po.phase == 0 && (events & UV_WRITABLE)) {
@@ -959,6 +971,9 @@ static void po_cb(uv_poll_t* h, int status, int events) {
   }
 }
 static void sc_poll(void) {
+  int i;
+  /* descriptor numbers beyond the current watcher table: uv__io_start has to grow it (maybe_resize) */
+  for (i = 0; i < PO_EXTRA; i++) if (RAW(SYS_socketpair, AF_UNIX, SOCK_STREAM | SOCK_NONBLOCK | SOCK_CLOEXEC, 0, po.extra[i])) po.extra[i][0] = po.extra[i][1] = -1;
   if (RAW(SYS_socketpair, AF_UNIX, SOCK_STREAM | SOCK_NONBLOCK | SOCK_CLOEXEC, 0, po.fds)) return;
   po.h = NEW(uv_poll_t);
   if (A("uv_poll_init", uv_poll_init(loop, po.h, po.fds[0]))) { free(po.h); goto done; }
@@ -967,6 +982,7 @@ run:
   uv_run(loop, UV_RUN_DEFAULT);
 done:
   RAW(SYS_close, po.fds[0]); RAW(SYS_close, po.fds[1]);
+  for (i = 0; i < PO_EXTRA; i++) if (po.extra[i][0] >= 0) { RAW(SYS_close, po.extra[i][0]); RAW(SYS_close, po.extra[i][1]); }
 }
 
 /* ================================================================== scenario: os / misc getters (allocation users) */
